@@ -324,10 +324,9 @@ def masks_equal(this, other, this_grid=None, other_grid=None):
     if not np.ndim(this) == np.ndim(other):
         return False
     # mask shape is grid specific (reversed axes, decreasing axis)
-    if this_grid is None or other_grid is None:
-        return True
-    this = this_grid.to_canonical(this)
-    other = other_grid.to_canonical(other)
+    if this_grid is not None and other_grid is not None:
+        this = this_grid.to_canonical(this)
+        other = other_grid.to_canonical(other)
     if not np.all(np.shape(this) == np.shape(other)):
         return False
     return np.all(this == other)
